@@ -586,6 +586,9 @@ func (x ExtendedReport) Marshal() ([]byte, error) {
 
 // Unmarshal decodes the ExtendedReport from binary
 func (x *ExtendedReport) Unmarshal(b []byte) error {
+	// Clear any existing entries
+	x.Reports = nil
+
 	var header Header
 	if err := header.Unmarshal(b); err != nil {
 		return err
